@@ -131,7 +131,9 @@ def job_pow2(t, L=0):
                 lo_d = x - hi; up = hi << 1; up_d = up - x
                 g.append(('c%d' % k, z3.If(is_pow2(i[0][k]), r == x, z3.And(z3.Or(r == hi, r == up), z3.If(r == hi, z3.ULE(lo_d, up_d), z3.ULE(up_d, lo_d))))))
             return g
-        S.check_fn(U, 'roundPowerOfTwo' + sfx, spec_round, pre_up, bounds='0 < x, next power of two representable')
+        # domain of roundPowerOfTwo: the NEAREST power of two is representable, i.e. x <= top or x strictly closer to top than to 2*top (x < 1.5*top)
+        pre_rnd = lambda i: [z3.And(pos(x, sg), ult(x, z3.BitVecVal(3 * (top >> 1), W))) for x in i[0]]
+        S.check_fn(U, 'roundPowerOfTwo' + sfx, spec_round, pre_rnd, bounds='0 < x < 1.5 * 2^%d (the nearest power of two is representable)' % (W - 2 if sg else W - 1))
     return run
 
 def job_mult(t, f, L=0):
